@@ -390,6 +390,20 @@ func (r *c07Run) run() {
 				}
 				res := b.SetOracleList(keep)
 				r.logf("gov oracle list (%d) -> %s", len(keep), res.ErrString())
+				if res.OK() && rng.IntN(3) != 0 {
+					// one long block later the removed oracles' stake has matured and they leave for good, while
+					// oracle sets that still list them as members wait to be checked for confirmations
+					if !r.block(22 * 24 * time.Hour) {
+						return
+					}
+					for _, x := range b.Oracles {
+						if rec2, ok := b.K.GetOracle(c.Ctx, x.Oracle.Acc()); ok && !rec2.Online {
+							if ur := c.Msg(&crosschaintypes.MsgUnbondedOracle{ChainName: spec.Chain, OracleAddress: x.Oracle.Bech32()}); ur.OK() {
+								r.res.Count("removed_oracles_gone_before_their_sets_aged", 1)
+							}
+						}
+					}
+				}
 			case 2:
 				res := c.Msg(&crosschaintypes.MsgUnbondedOracle{ChainName: spec.Chain, OracleAddress: o.Oracle.Bech32()})
 				r.logf("unbond -> %s", res.ErrString())
